@@ -4,6 +4,7 @@ package sim
 // model together, with the comparison that every server-side property shares.
 
 import (
+	"encoding/binary"
 	"encoding/hex"
 	"encoding/json"
 	"fmt"
@@ -341,4 +342,23 @@ func (n *ServerNode) GetEquipment() map[uint32]glow.EquipmentAuthorization {
 // GetRecentStatus fetches recent-reports for a key and returns the status only.
 func (n *ServerNode) GetRecentStatus(pub glow.PublicKey) int {
 	return n.Get("/api/v1/recent-reports?publicKey=" + hex.EncodeToString(pub[:])).Status
+}
+
+// ParseStatsFileP returns the week offsets of a statistics file (flavour
+// independent, minimal decoder).
+func ParseStatsFileP(b []byte) ([]uint32, error) {
+	var out []uint32
+	for len(b) > 0 {
+		if len(b) < 4 {
+			return out, fmt.Errorf("trailing %d bytes", len(b))
+		}
+		n := int(binary.LittleEndian.Uint32(b))
+		need := 4 + n*(32+16*2016) + 4 + 64
+		if n > 1<<20 || len(b) < need {
+			return out, fmt.Errorf("record of %d devices needs %d bytes, %d left", n, need, len(b))
+		}
+		out = append(out, binary.LittleEndian.Uint32(b[need-68:]))
+		b = b[need:]
+	}
+	return out, nil
 }
